@@ -259,6 +259,11 @@ def assembly_slices(ctx, rng, t=None):
 def correspondence(ctx):
     ir = translate(ctx)
     rng = ctx.rng
+    # source reading of the def-level wrappers (fuvw / fg / fstrain incl. the pad / reshape / prange / ravel / trim logic) of the field modules:
+    # the translator above covers the C-level cf* bodies, this covers the rest of the two files as written
+    from tools import source_tie
+    if source_tie.check(ctx, 'C11', ('panel_field',)):
+        return
     dist = dict(models={}, cores={}, npts={}, NL=0)
     for t in range(ctx.scale(40, 400)):
         case = gen(ctx, rng)
